@@ -1002,7 +1002,10 @@ def _run(ctx, recs):
             # the number of channels need not be a multiple of the channel bin: the last bin may be a partial one
             nch = nchb * chbin - rnd.choice([0, 0, 1]) if max(int(t[1].max()) for t in trains) < nchb * chbin - 1 else nchb * chbin
             chunks = [None, binsize, binsize * rnd.choice([2, 3]), binsize + 1, rnd.randint(1, 3 * binsize + 1)]
-            for ch in (chunks if not ctx.quick else rnd.sample(chunks, 3)):
+            # a chunk size that is not a whole number of samples (the default is 20 * fs, and fs is a calibrated rate such as
+            # 30000.07: seed round i): every spike still belongs to exactly one chunk
+            frac = [binsize * rnd.choice([1, 2]) + rnd.choice([0.25, 0.5, 0.75]), rnd.randint(1, 3 * binsize) + rnd.choice([0.07, 0.4])]
+            for ch in (chunks + frac if not ctx.quick else rnd.sample(chunks, 3) + [rnd.choice(frac)]):
                 t = venn_call(trains, binsize, chbin, nch, ch, seq=seq)
                 t.update(chunk=ch, binsize=binsize, scenario={"kind": "venn", "cols": c["cols"], "binsize": binsize, "chbin": chbin,
                                                               "chunk": ch, "nch": nch, "sdt": sdt, "cdt": cdt,
